@@ -66,7 +66,10 @@ LamOK(m) ==
        /\ m.tbs /\ m.jerr = "" /\ m.tj = m.t /\ m.eq /\ m.ferr = "" /\ m.perr # ""
        /\ KF("string-ending-in-backslash-unformattable")
 
-(* pipeline -> TICKscript (pipeline/tick) -> pipeline *)
+(* pipeline -> TICKscript (pipeline/tick) -> pipeline.  "skipped": seeded    *)
+(* random compositions are verdict-level for Format and lambda JSON only -    *)
+(* the catalogue of pipeline/tick / pipeline JSON deviations is complete for  *)
+(* the deterministic sweeps (members x argument classes, literals, shapes).   *)
 Known(sig) == \E p \in KnownSigs : p[1] = sig /\ KF(p[2])
 AllKnown(sigs) == sigs # <<>> /\ \A i \in DOMAIN sigs : Known(sigs[i])
 RenderOK(b, iso) ==
@@ -77,7 +80,8 @@ RenderOK(b, iso) ==
 (* pipeline -> JSON -> pipeline *)
 PJsonOK(r) ==
     /\ r.mpure                                 \* MarshalJSON leaves the pipeline as it was
-    /\ \/ r.c.merr = "" /\ r.c.uerr = "" /\ r.c.iso = r.o.iso /\ r.c.sigs = <<>>
+    /\ \/ r.c.skipped
+       \/ r.c.merr = "" /\ r.c.uerr = "" /\ r.c.iso = r.o.iso /\ r.c.sigs = <<>>
        \/ (r.c.merr # "" \/ r.c.uerr # "" \/ r.c.iso # r.o.iso) /\ AllKnown(r.c.sigs)
 
 ScriptOK(r) ==
